@@ -68,8 +68,10 @@ namespace _details {
 template<typename Alloc, typename Awt, typename Fn, typename ... Args>
 with_allocator<Alloc,async<void> > callback_await_coro(Alloc &, Fn fn, Args ... args) noexcept {
     using RetVal = std::decay_t<awaiter_return_value<Awt> >;
-    Awt awt(std::forward<Args>(args)...);
     try {
+        //constructed inside of the try block: when starting the awaited operation throws
+        //(constructor of the awaitable, the factory passed as argument), the callback receives the exception
+        Awt awt(std::forward<Args>(args)...);
         if constexpr(std::is_void_v<RetVal>) {
             co_await awt;
             fn(await_result<void>{true});
